@@ -23,7 +23,7 @@ pub open spec fn pair_le(a: (f32, u32), b: (f32, u32)) -> bool { fkey(a.0) < fke
 
 pub assume_specification[u64::ilog2](x: u64) -> (r: u32) requires x > 0 ensures r <= 63;
 #[verifier::external_body]
-pub fn f32_infinity_() -> (r: f32) { unimplemented!() }
+pub fn f32_infinity_() -> (r: f32) ensures r == f32_inf_spec() { unimplemented!() }
 
 pub open spec fn sat_mul(a: usize, b: usize) -> usize { if a * b > usize::MAX { usize::MAX } else { (a * b) as usize } }
 
@@ -69,7 +69,8 @@ impl BinaryHeap<(OrderedFloat, NodeId)> {
     /// rule R7 target for `queue.extend(repeat(p).zip(roots.iter().map(NodeId::tree)))`
     #[verifier::external_body]
     pub fn extend_roots_(&mut self, p: OrderedFloat, roots: &ItemIds)
-        ensures forall|x: (OrderedFloat, NodeId)| final(self).view().count(x) > 0 ==> (old(self).view().count(x) > 0 || (x.1.mode == NodeMode::Tree && roots@.contains(x.1.item)))
+        ensures forall|x: (OrderedFloat, NodeId)| final(self).view().count(x) > 0 ==> (old(self).view().count(x) > 0 || (x.1.mode == NodeMode::Tree && roots@.contains(x.1.item))),
+            forall|k: int| 0 <= k < roots@.len() ==> final(self).view().count((p, NodeId { mode: NodeMode::Tree, item: #[trigger] roots@[k] })) > 0,
     { unimplemented!() }
 }
 impl BinaryHeap<Reverse<(OrderedFloat, ItemId)>> {
@@ -78,6 +79,7 @@ impl BinaryHeap<Reverse<(OrderedFloat, ItemId)>> {
         ensures r.view() == v@.to_multiset(), r.view().len() == v@.len(),
             // consequences of to_multiset, stated for convenience
             forall|e: Reverse<(OrderedFloat, ItemId)>| r.view().count(e) > 0 ==> v@.contains(e),
+            forall|i: int| 0 <= i < v@.len() ==> r.view().count(#[trigger] v@[i]) > 0,
             (forall|i: int, j: int| 0 <= i < j < v@.len() ==> v@[i] != v@[j]) ==> (forall|e: Reverse<(OrderedFloat, ItemId)>| r.view().count(e) <= 1),
     { unimplemented!() }
     #[verifier::external_body]
@@ -86,9 +88,9 @@ impl BinaryHeap<Reverse<(OrderedFloat, ItemId)>> {
     #[verifier::external_body]
     pub fn pop(&mut self) -> (r: Option<Reverse<(OrderedFloat, ItemId)>>)
         ensures match r {
-            Some(x) => old(self).view().count(x) > 0 && final(self).view() == old(self).view().remove(x)
+            Some(x) => old(self).view().count(x) > 0 && final(self).view() == old(self).view().remove(x) && old(self).view() == final(self).view().insert(x)
                 && (forall|y: Reverse<(OrderedFloat, ItemId)>| old(self).view().count(y) > 0 ==> pair_le(((x.0).0.0, (x.0).1), ((y.0).0.0, (y.0).1))),
-            None => old(self).view().len() == 0 && final(self).view() == old(self).view() }
+            None => old(self).view().len() == 0 && final(self).view() == old(self).view() && (forall|y: Reverse<(OrderedFloat, ItemId)>| old(self).view().count(y) == 0) }
     { unimplemented!() }
 }
 /// rule R7 targets for Vec<u32> helpers
@@ -108,3 +110,6 @@ pub fn extend_from_bitmap_(v: &mut Vec<u32>, b: &RoaringBitmap)
         forall|i: int| old(v)@.len() <= i < final(v)@.len() ==> b@.contains(#[trigger] final(v)@[i]),
         forall|x: u32| b@.contains(x) ==> final(v)@.contains(x),
 { unimplemented!() }
+
+/// A4: a Vec<u32> never holds usize::MAX elements (allocations are limited to isize::MAX bytes)
+pub proof fn axiom_vec_len_bound(v: &Vec<u32>) ensures v@.len() < usize::MAX { admit(); }
